@@ -1,7 +1,7 @@
 use std::cmp::min;
 
 use crate::CompressionError;
-use crate::lz13::get_occurrence_length;
+use crate::lz13::{decompress_lz, get_occurrence_length};
 
 type Result<T> = std::result::Result<T, CompressionError>;
 
@@ -63,9 +63,9 @@ impl LZ10CompressionFormat {
     }
 
     pub fn decompress(&self, bytes: &[u8]) -> Result<Vec<u8>> {
-        match nintendo_lz::decompress_arr(bytes) {
-            Ok(decompressed_data) => Ok(decompressed_data),
-            Err(_) => Err(CompressionError::InvalidInput("LZ10".to_string())),
+        match decompress_lz(bytes) {
+            Some(decompressed_data) => Ok(decompressed_data),
+            None => Err(CompressionError::InvalidInput("LZ10".to_string())),
         }
     }
 }
